@@ -23,8 +23,8 @@
 (* and FloatDenoteHex is an error of the SPECIFICATION (SPECDIFF line,     *)
 (* exit 2 in the harness), never a verdict about the code.                 *)
 (*                                                                         *)
-(* Rows are judged chunk by chunk: stage 0 -> a chunk is chosen -> its      *)
-(* expansion reads and judges the rows, prints one line per failing row    *)
+(* Rows are judged chunk by chunk: stage 0 -> a chunk is chosen -> its rows *)
+(* are read -> they are judged: one line is printed per failing row        *)
 (*   <<"BAD", id, law, class of input, class of output, fields changed>>   *)
 (* and records the number of failing rows in bad.  All failing rows are    *)
 (* listed, so that each can be classified.                                 *)
@@ -71,13 +71,14 @@ Judge(r) ==
 RECURSIVE CountBad(_, _)
 CountBad(rows, n) == IF n = 0 THEN 0 ELSE Judge(rows[n]) + CountBad(rows, n - 1)
 
-VARIABLES stg, chunk, bad
-vars == <<stg, chunk, bad>>
+VARIABLES stg, chunk, rows, bad
+vars == <<stg, chunk, rows, bad>>
 
-Init == stg = 0 /\ chunk = 0 /\ bad = 0
-Next == \/ stg = 0 /\ chunk' \in 1..NChunks /\ stg' = 1 /\ bad' = 0
-        \/ stg = 1 /\ stg' = 2 /\ UNCHANGED chunk
-                   /\ LET rows == RowsOf(chunk) IN bad' = CountBad(rows, Len(rows))
+\* the rows are held in a variable while they are judged, so that the file is read once
+Init == stg = 0 /\ chunk = 0 /\ rows = <<>> /\ bad = 0
+Next == \/ stg = 0 /\ chunk' \in 1..NChunks /\ stg' = 1 /\ UNCHANGED <<rows, bad>>
+        \/ stg = 1 /\ rows' = RowsOf(chunk) /\ stg' = 2 /\ UNCHANGED <<chunk, bad>>
+        \/ stg = 2 /\ bad' = CountBad(rows, Len(rows)) /\ rows' = <<>> /\ stg' = 3 /\ UNCHANGED chunk
 Spec == Init /\ [][Next]_vars
 
 \* the property on the recording: no row changes its bits
